@@ -101,7 +101,7 @@ def M(mid, classes, doctypes, keys, scalars, reg=None, qtags=('seq',),
       mtags=('map',), oddkeys=(), stags=(), family='load', note='',
       qn=4, tn=None, strs=(), dump=True, rtypes=None,
       qo=4, to=5, an=None, rootk='', nodup=False, aliask=('s', 'q', 'm'),
-      cyc=True):
+      cyc=True, qcap=0):
     names = [c['name'] for c in classes]
     return {
         'id': mid, 'classes': classes,
@@ -116,6 +116,8 @@ def M(mid, classes, doctypes, keys, scalars, reg=None, qtags=('seq',),
         'strs': list(strs), 'dump': dump, 'qo': qo, 'to': to, 'an': an if an is not None else qn,
         'rootk': rootk, 'nodup': nodup, 'aliask': list(aliask), 'cyc': cyc,
         'rtypes': list(doctypes if rtypes is None else rtypes),
+        # minimum number of rejected documents replayed in the quick tier
+        'qcap': qcap,
     }
 
 
@@ -364,7 +366,7 @@ def models():
     mg = C('Mg', [P('x', INT), P('y', INT, ['int', '0'])])
     ms.append(M('mergecls', [mg], [K('Mg')], keys=['x', 'y'],
                 oddkeys=[S_MERGE], scalars=[S_42, S_TRUE], qn=7, tn=7,
-                rootk='m', nodup=True, rtypes=[]))
+                rootk='m', nodup=True, rtypes=[], qcap=8000))
 
     # ---- a cycle below an extra attribute ---------------------------------------
     xe = C('Xe', [P('a', INT)], extra=True)
@@ -541,6 +543,13 @@ def models():
     ms.append(M('seqstr', [us5, hu], [K('Hu')], keys=['a', 'b'],
                 scalars=[S_ABC], qn=5, tn=5, an=5, rootk='m', nodup=True,
                 aliask=('s',), cyc=False, rtypes=[]))
+    # default-value removal in a class that also takes _yatiml_extra (whose own
+    # default must not shift the defaults of the attributes)
+    dx = C('Dx', [P('n', STR), P('g', INT, ['int', '42']), P('o', INT, ['int', '0'])],
+           extra=True, swe=['remove_defaults', 'Dx'])
+    ms.append(M('defextra', [dx], [K('Dx')], keys=['n', 'g', 'o', 'xk'],
+                scalars=[S_42, S_7, S_ABC], strs=['abc'], family='dump',
+                qn=1, tn=1, qo=5, to=6))
     # ---- long and unusual strings as attributes of an object -------------------
     ls = C('Ls', [P('d', STR), P('e', STR, ['str', 'abc'])])
     ms.append(M('longstr', [ls], [K('Ls'), L(STR), D(STR)], keys=['d', 'e'],
